@@ -91,15 +91,14 @@ def gen_mlp(tier, rng):
     cases = []
     ex = True
     cfg = {"min_hidden_layers": 1, "max_hidden_layers": 3, "min_mlp_nodes": 3, "max_mlp_nodes": 13}
-    c, e = bfs("mlp", MLP_STATIC, cfg, [8], mlp_moves_explicit((4,) if tier == "quick" else (4, 5)), lambda d: d["widths"],
-               limit=1500 if tier == "quick" else 20000)
+    c, e = bfs("mlp", MLP_STATIC, cfg, [8], mlp_moves_explicit((4,)), lambda d: d["widths"], limit=20000)
     cases += c; ex &= e
     cfg2 = {"min_hidden_layers": 1, "max_hidden_layers": 2, "min_mlp_nodes": 16, "max_mlp_nodes": 80}
     st2 = dict(MLP_STATIC, layer_norm=False, output_layernorm=True)
     c, e = bfs("mlp", st2, cfg2, [32], mlp_moves_drawn, lambda d: d["widths"], limit=1200 if tier == "quick" else 20000, tag="bfs-drawn")
     cases += c; ex &= e
     if tier != "quick":
-        cfg3 = {"min_hidden_layers": 2, "max_hidden_layers": 4, "min_mlp_nodes": 2, "max_mlp_nodes": 10}
+        cfg3 = {"min_hidden_layers": 2, "max_hidden_layers": 3, "min_mlp_nodes": 2, "max_mlp_nodes": 10}
         c, e = bfs("mlp", dict(MLP_STATIC, noisy=True), cfg3, [4, 6], mlp_moves_explicit((2, 4)), lambda d: d["widths"], limit=20000)
         cases += c; ex &= e
     # seeded walks at the default bounds
@@ -229,7 +228,7 @@ def gen_cnn(tier, rng):
     st2 = {"input_shape": [1, 34, 30], "num_outputs": 2, "layer_norm": True, "init_layers": False}
     cfg2 = {"min_hidden_layers": 1, "max_hidden_layers": 2, "min_channel_size": 8, "max_channel_size": 24}
     c, e = bfs("cnn", st2, cfg2, {"channels": [8], "kernels": [4], "strides": [2]}, cnn_moves(True), cnn_to_init,
-               limit=600 if quick else 30000, tag="bfs-drawn")
+               limit=250 if quick else 30000, tag="bfs-drawn")
     cases += c; ex &= e
     nw, ln = (4, 40) if quick else (12, 150)
     for w in range(nw):
